@@ -39,6 +39,7 @@ import (
 	"os"
 	"os/exec"
 	"regexp"
+	"runtime"
 	"strconv"
 	"strings"
 	"sync"
@@ -148,6 +149,31 @@ func vfC04ParseTok(f []byte) string {
 	return tok
 }
 
+// vfC04ChanTok: the WHOLE transcript of ParseRdb's channel: entries before the first terminal, then every item that
+// follows in order (E = Err, D = Done, k = a further entry), "x" when the channel closes without any terminal.
+func vfC04ChanTok(f []byte) string {
+	var rb atomic.Int64
+	pipe := rdb.ParseRdb(bytes.NewReader(f), &rb, 16)
+	n := 0
+	var terms []string
+	for e := range pipe {
+		switch {
+		case e.Err != nil:
+			terms = append(terms, "E")
+		case e.Done:
+			terms = append(terms, "D")
+		case len(terms) > 0:
+			terms = append(terms, "k")
+		default:
+			n++
+		}
+	}
+	if len(terms) == 0 {
+		terms = []string{"x"}
+	}
+	return fmt.Sprintf("%d:%s", n, strings.Join(terms, ","))
+}
+
 // TestVerifC04Child parses one file in a process of its own (inputs whose
 // length fields ask for absurd allocations).
 func TestVerifC04Child(t *testing.T) {
@@ -248,7 +274,7 @@ type vfC04BatchRes struct {
 }
 
 func vfC04KVsOf(name string) []vfc20.KV {
-	for _, f := range append(append(vfC04Files(), vfC04OomBait()), vfC04StreamFile(), vfC04Stream2File(), vfC04BigFile()) {
+	for _, f := range append(append(vfC04Files(), vfC04OomBait()), vfC04StreamFile(), vfC04Stream2File(), vfC04Stream3File(), vfC04BigFile()) {
 		if f.Name == name {
 			return f.KVs
 		}
@@ -418,6 +444,15 @@ func vfC04BigFile() vfC04File {
 	}}
 }
 
+// vfC04Stream3File: a stream with an entry that has its own field list, a consumer group, a pending entry and a consumer:
+// the decoder's other count-driven loops (entry-num-fields, PEL sizes, consumer count).
+func vfC04Stream3File() vfC04File {
+	return vfC04File{Name: "stream3", KVs: []vfc20.KV{
+		{DB: 0, Key: []byte("a"), Type: 0, Str: []byte("1")},
+		vfc20.SmallStreamX("st"),
+	}}
+}
+
 // vfC04SetValues: byte values that MAKE a length / count field large when they
 // are written over a small one — RDB lengths (0x80 32-bit, 0x81 64-bit, 0xC3
 // LZF, 0x7F 14-bit), listpack integers (0xF1..0xF4: 16/24/32/64-bit), listpack /
@@ -484,21 +519,28 @@ func vfC04WorkerLoop(t *testing.T) {
 		switch rq.Kind {
 		case "parse":
 			rp.Tok = vfC04ParseTok(data)
+		case "chan":
+			rp.Tok = vfC04ChanTok(data)
 		case "alloc":
-			// the real ReadBytes(n) over a source of `avail` bytes: length of what it returns, ok | err
-			p, err := rdb.NewRdbReader(bytes.NewReader(make([]byte, rq.Opts.PipeSize))).ReadBytes(int(rq.Size))
-			rp.Tok = fmt.Sprintf("%d %s", len(p), map[bool]string{true: "ok", false: "err"}[err == nil])
+			// the real ReadBytes(n) over a source of `avail` bytes: len, ok | err, cap of what it returns, bytes allocated meanwhile
+			var m0, m1 runtime.MemStats
+			src := bytes.NewReader(make([]byte, rq.Opts.PipeSize))
+			runtime.ReadMemStats(&m0)
+			p, err := rdb.NewRdbReader(src).ReadBytes(int(rq.Size))
+			runtime.ReadMemStats(&m1)
+			rp.Tok = fmt.Sprintf("%d %s %d %d", len(p), map[bool]string{true: "ok", false: "err"}[err == nil], cap(p), m1.TotalAlloc-m0.TotalAlloc)
 		case "lzf":
-			// the real string reader on C3 <inlen> <outlen> <inlen literal-run bytes>: refused by the length bound, or allocated
-			in := make([]byte, rq.Opts.PipeSize) // control bytes 0x00: one literal each, so the data itself is malformed LZF at most
+			// the real string reader on C3 <inlen> <outlen> <inlen bytes>: bytes allocated while it decides
+			in := make([]byte, rq.Opts.PipeSize)
 			b := append([]byte{0xC3}, vfc20.EncLen(uint64(len(in)))...)
 			b = append(b, vfc20.EncLen(uint64(rq.Size))...)
 			b = append(b, in...)
-			_, err := rdb.NewRdbReader(bytes.NewReader(b)).ReadString()
-			rp.Tok = "alloc"
-			if err != nil && strings.Contains(err.Error(), "is impossible for") {
-				rp.Tok = "refused"
-			}
+			var m0, m1 runtime.MemStats
+			rd := rdb.NewRdbReader(bytes.NewReader(b))
+			runtime.ReadMemStats(&m0)
+			_, err := rd.ReadString()
+			runtime.ReadMemStats(&m1)
+			rp.Tok = fmt.Sprintf("%s %d", map[bool]string{true: "ok", false: "err"}[err == nil], m1.TotalAlloc-m0.TotalAlloc)
 		case "send", "cached":
 			var r vfC04Res
 			if rq.Kind == "send" {
@@ -584,6 +626,9 @@ func (w *vfC04Worker) call(rq vfC04Req) (vfC04Resp, string, string) {
 		how := "crash"
 		if strings.Contains(tail, "out of memory") || strings.Contains(tail, "cannot allocate") {
 			how = "oom"
+		}
+		if i := strings.Index(tail, "fatal error"); i > 80 {
+			tail = tail[i-80:] // the runtime's own message, not the log lines before it
 		}
 		if len(tail) > 500 {
 			tail = tail[:500]
@@ -705,6 +750,7 @@ func vfC04Send(t *testing.T, kvs []vfc20.KV, data []byte, size int64, o vfC04Opt
 		}
 		tg.FailExecToo = true // a fault injected at an EXEC request is a fault
 		tg.AcceptScripts = true
+		tg.XGroupKey = true
 		ro := vfC20Output(c, tg, o.Parallel)
 		ro.cfg.EnableResumeFromBreakPoint = o.Resume
 		var connAddrMu sync.Mutex
@@ -1253,6 +1299,58 @@ func TestVerifC04(t *testing.T) {
 			s.Count("parse_truncations")
 		}
 		s.Op(fmt.Sprintf("c04trunc %d %s", maxVer, vfutil.Hex(data)), strings.Join(toks, ","))
+		// the whole channel transcript (every terminal in order, closed): the intact file, every cut of the last 12 bytes and a
+		// few earlier ones, every byte of the footer and the EOF opcode altered, bytes appended behind the footer
+		{
+			var gs [][]byte
+			gs = append(gs, data)
+			for k := len(data) - 12; k < len(data); k++ {
+				gs = append(gs, data[:k])
+			}
+			for j := 0; j < 6; j++ {
+				gs = append(gs, data[:rnd.Intn(len(data))])
+			}
+			for pos := len(data) - 9; pos < len(data); pos++ {
+				for _, m := range []byte{0x01, 0x80, byte(rnd.Range(1, 255))} {
+					g := append([]byte(nil), data...)
+					g[pos] ^= m
+					gs = append(gs, g)
+				}
+			}
+			gs = append(gs, append(append([]byte(nil), data...), 0), append(append([]byte(nil), data...), 0xFF, 0, 0, 0, 0, 0, 0, 0, 0))
+			zf := append([]byte(nil), data...)
+			copy(zf[len(zf)-8:], make([]byte, 8))
+			gs = append(gs, zf, append(append([]byte(nil), zf...), 7))
+			for _, g := range gs {
+				mark("chan " + f.Name)
+				sup, _ := vfc20.Classify(g)
+				rp, died, tail := vfC04W.call(vfC04Req{Kind: "chan", Data: vfutil.Hex(g)})
+				if died != "" {
+					s.Count("viol_" + died)
+					s.Violate(died, "damaged snapshot: the parser process dies: "+tail, map[string]interface{}{"scenario": "chan", "rdb": vfutil.Hex(g)})
+					continue
+				}
+				tok := rp.Tok
+				if strings.HasSuffix(tok, ":x") {
+					s.Count("viol_parser-no-terminal")
+					s.Violate("parser-no-terminal", "rdb.ParseRdb closed its channel without a Done or Err entry ("+tok+")",
+						map[string]interface{}{"scenario": "chan", "file": f.Name, "rdb": vfutil.Hex(g)})
+				}
+				if strings.Contains(tok, "k") || strings.Contains(tok, "D,") {
+					s.Count("viol_chan-after-done")
+					s.Violate("chan-after-done", "rdb.ParseRdb sent something after Done, or an entry after a terminal ("+tok+")",
+						map[string]interface{}{"scenario": "chan", "file": f.Name, "rdb": vfutil.Hex(g)})
+				}
+				if !sup {
+					tok = "u"
+				}
+				s.Op(fmt.Sprintf("c04chan %d %s", maxVer, vfutil.Hex(g)), tok)
+				s.Count("chan_transcripts")
+				if strings.HasSuffix(tok, "E,D") {
+					s.Count("observed_err_then_done_after_footer_error")
+				}
+			}
+		}
 		// every single-byte XOR
 		for pos := 0; pos < len(data); pos++ {
 			toks = toks[:0]
@@ -1409,7 +1507,7 @@ func TestVerifC04(t *testing.T) {
 	// ------------------------------------------------ 2b. stream values and an LZF string: decoders run in the workers,
 	// supervised child. Alterations: XOR masks AND writing length/count-making values over every byte (vfC04SetValues).
 	phase("2b")
-	for fi, f := range []vfC04File{vfC04StreamFile(), vfC04Stream2File()} {
+	for fi, f := range []vfC04File{vfC04StreamFile(), vfC04Stream2File(), vfC04Stream3File()} {
 		data := f.bytes()
 		s.Add("sweep_file_bytes", len(data))
 		var cases []vfC04BatchCase
@@ -1769,42 +1867,73 @@ func TestVerifC04(t *testing.T) {
 	}
 
 	phase("3c")
-	// ------------------------------------------------ 3c. the allocation discipline (Model/RdbAlloc, theorem alloc_bounded_partial):
-	// the real ReadBytes / lzfDecompress in the worker child (a mutant that trusts the field dies there: `oom`) vs the model
+	// ------------------------------------------------ 3c. what a length field can make the readers ALLOCATE (Model/RdbAlloc,
+	// theorem alloc_bounded_partial): the real ReadBytes / LZF string reader in the worker child (a version that trusts the
+	// field enough dies there: `oom`). Tie: ok/err and, on success, the length. Monitors (the property's bound, not the
+	// implementation's exact numbers): len ≤ avail + step, cap ≤ 2·(avail + step), bytes allocated ≤ 8·(avail + step) + 16 MiB;
+	// LZF: bytes allocated ≤ 1024·(compressed bytes) + 8 MiB.
 	{
 		step := int64(rdb.VerifReadBytesStep)
 		type na struct{ n, avail int64 }
 		cases := []na{{0, 0}, {1, 0}, {10, 3}, {10, 10}, {1000, 999}, {1000, 5000}, {step, 10}, {step + 5, 10}, {1 << 40, 10},
-			{step + 5, step + 5}, {2*step + 1, step + 3}, {1 << 62, 0}}
+			{step + 5, step + 5}, {2*step + 1, step + 3}, {1 << 62, 0},
+			// lengths between one step and 4 GiB over a nearly empty source: a regression here does not kill the child
+			{100 << 20, 10}, {512 << 20, 7}, {1<<30 - 1, 10}, {3 << 30, 100}, {1<<32 - 1, 0}}
 		for i := 0; i < 6; i++ {
 			cases = append(cases, na{int64(rnd.Intn(5000)), int64(rnd.Intn(5000))})
 		}
+		cases = append(cases, na{step + int64(rnd.Intn(1<<30)), int64(rnd.Intn(100))})
 		for _, c := range cases {
 			mark(fmt.Sprintf("alloc %d %d", c.n, c.avail))
 			o := vfC04DefaultOpts()
 			o.PipeSize = int(c.avail)
 			rp, died, tail := vfC04W.call(vfC04Req{Kind: "alloc", Size: c.n, Opts: o})
+			rpl := map[string]interface{}{"scenario": "alloc", "n": c.n, "avail": c.avail}
 			if died != "" {
 				s.Count("viol_" + died)
-				s.Violate(died, fmt.Sprintf("ReadBytes(%d) over a source of %d bytes: the process dies (%s)", c.n, c.avail, tail),
-					map[string]interface{}{"scenario": "alloc", "n": c.n, "avail": c.avail})
+				s.Violate(died, fmt.Sprintf("ReadBytes(%d) over a source of %d bytes: the process dies (%s)", c.n, c.avail, tail), rpl)
 				continue
 			}
-			s.Op(fmt.Sprintf("c04alloc %d %d %d", step, c.n, c.avail), rp.Tok)
+			var ln, cp, delta int64
+			var okS string
+			fmt.Sscanf(rp.Tok, "%d %s %d %d", &ln, &okS, &cp, &delta)
+			if okS == "ok" {
+				s.Op(fmt.Sprintf("c04alloc %d %d %d", step, c.n, c.avail), fmt.Sprintf("%d ok", ln))
+			} else {
+				s.Op(fmt.Sprintf("c04alloc %d %d %d", step, c.n, c.avail), "err")
+			}
+			if ln > c.avail+step || cp > 2*(c.avail+step) || delta > 8*(c.avail+step)+(16<<20) {
+				s.Count("viol_alloc-unbounded")
+				s.Violate("alloc-unbounded", fmt.Sprintf("ReadBytes(%d) over a source of %d bytes: len %d, cap %d, %d bytes allocated — "+
+					"more than the bytes present (+ the %d-byte step) justify", c.n, c.avail, ln, cp, delta, step), rpl)
+			}
 			s.Count("alloc_points")
 		}
-		for _, c := range []na{{40, 5}, {1320, 5}, {1321, 5}, {1 << 31, 5}, {0, 0}, {1, 0}, {int64(rnd.Intn(3000)), int64(rnd.Intn(12))}} {
+		for _, c := range []na{{40, 5}, {1320, 5}, {1321, 5}, {1 << 31, 5}, {1<<32 - 1, 100}, {0, 0}, {1, 0},
+			{int64(rnd.Intn(3000)), int64(rnd.Intn(12))}, {1<<32 - 1, 16268816}} {
 			mark(fmt.Sprintf("lzf %d %d", c.n, c.avail))
+			if c.n >= 1<<32-1 && c.avail > 1<<20 {
+				vfC04W.stop() // the largest allocation LZF allows: judged in a worker that holds nothing else
+			}
 			o := vfC04DefaultOpts()
 			o.PipeSize = int(c.avail)
 			rp, died, tail := vfC04W.call(vfC04Req{Kind: "lzf", Size: c.n, Opts: o})
+			rpl := map[string]interface{}{"scenario": "lzf", "outlen": c.n, "inlen": c.avail}
 			if died != "" {
 				s.Count("viol_" + died)
-				s.Violate(died, fmt.Sprintf("LZF string with outlen %d over %d compressed bytes: the process dies (%s)", c.n, c.avail, tail),
-					map[string]interface{}{"scenario": "lzf", "outlen": c.n, "inlen": c.avail})
+				s.Violate(died, fmt.Sprintf("LZF string with declared length %d over %d compressed bytes: the process dies (%s)", c.n, c.avail, tail), rpl)
 				continue
 			}
-			s.Op(fmt.Sprintf("c04lzf %d %d", c.n, c.avail), rp.Tok)
+			var okS string
+			var delta int64
+			fmt.Sscanf(rp.Tok, "%s %d", &okS, &delta)
+			if delta > 1024*c.avail+(8<<20) {
+				s.Count("viol_alloc-unbounded")
+				s.Violate("alloc-unbounded", fmt.Sprintf("LZF string, declared length %d, %d compressed bytes: %d bytes allocated", c.n, c.avail, delta), rpl)
+			}
+			if delta > 1<<30 {
+				s.Count("observed_lzf_single_allocation_over_1GiB_from_16MB_of_input")
+			}
 			s.Count("alloc_points")
 		}
 	}
